@@ -25,6 +25,29 @@ TString == OO(<< <<"type", S("string")>> >>)
 TInteger == OO(<< <<"type", S("integer")>> >>)
 TObjectP == OO(<< <<"type", S("object")>>, <<"properties", OO(<< <<"p", TInteger>> >>)>> >>)
 RespD == OO(<< <<sDescr, S("d")>> >>)
+UrlBad == S(Join(cUrlBad))
+(* an object schema whose one property is required and readOnly / writeOnly, and the two values that matter *)
+SFlag(k, flag) == OO(<< <<"type", S("object")>>, <<"properties", OO(<< <<k, OO(<< <<"type", S("string")>>, <<flag, B(TRUE)>> >>)>> >>)>>,
+                        <<"required", A(<<S(k)>>)>> >>)
+SRo == SFlag("r", "readOnly")
+SWo == SFlag("w", "writeOnly")
+VPresent(k) == OO(<< <<k, S("x")>> >>)
+(* leaves whose verdict depends on the mode of the place (DocRules!ModeOf): the same object is a conforming    *)
+(* variant (var = ok) where the mode is outside viol, and a violation of example_mismatch (var = bad) inside  *)
+ModeLeaves == {[bad |-> "ro_present", ok |-> "ro_present_ok", viol |-> {"req"},        sch |-> SRo, val |-> VPresent("r")],
+               [bad |-> "ro_absent",  ok |-> "ro_absent_ok",  viol |-> {"res", "any"}, sch |-> SRo, val |-> EmptyO],
+               [bad |-> "wo_present", ok |-> "wo_present_ok", viol |-> {"res"},        sch |-> SWo, val |-> VPresent("w")],
+               [bad |-> "wo_absent",  ok |-> "wo_absent_ok",  viol |-> {"req", "any"}, sch |-> SWo, val |-> EmptyO]}
+PresentLeaves == {m \in ModeLeaves : m.bad \in {"ro_present", "wo_present"}}
+ModeGoods(ms, Obj(_)) == {[rule |-> "none", var |-> m.ok, obj |-> Obj(m), comps |-> <<>>] : m \in ms}
+ModeBads(ms, Obj(_)) == {[rule |-> "example_mismatch", var |-> m.bad, obj |-> Obj(m), comps |-> <<>>] : m \in ms}
+MtWith(m) == OO(<< <<"schema", m.sch>>, <<"example", m.val>> >>)
+MtWithMap(m) == OO(<< <<"schema", m.sch>>, <<"examples", OO(<< <<"e", OO(<< <<"value", m.val>> >>)>> >>)>> >>)
+MapLeaves == {[m EXCEPT !.bad = "map_" \o m.bad, !.ok = "map_" \o m.ok] : m \in PresentLeaves}
+SchWith(m) == With(m.sch, << <<"example", m.val>> >>)
+ParamWith(m) == OO(<< <<"name", S("q")>>, <<"in", S("query")>>, <<"schema", m.sch>>, <<"example", m.val>> >>)
+WoPresent == CHOOSE m \in ModeLeaves : m.bad = "wo_present"
+RoPresent == CHOOSE m \in ModeLeaves : m.bad = "ro_present"
 Scopes == OO(<< <<"s", S("d")>> >>)
 
 RECURSIVE Min0(_)
@@ -97,11 +120,24 @@ DistinctLists == {[var |-> "refs_distinct",  ps |-> <<PRef(cNameR), PRef(cNameR1
                   [var |-> "ref_other_in",   ps |-> <<PRef(cNameR), OO(<< <<"name", S("q")>>, <<"in", S("header")>>, <<"schema", TString>> >>)>>,
                                              comps |-> <<PComp(cNameR, ParamQ)>>]}
 MtMin == Min("mediaType")
+MapModeGoods == {[rule |-> "none", var |-> m.ok, obj |-> MtWithMap(m), comps |-> <<>>] : m \in MapLeaves}
+MapModeBads == {[rule |-> "examples_mismatch", var |-> m.bad, obj |-> MtWithMap(m), comps |-> <<>>] : m \in MapLeaves}
+WoLeaves == {m \in ModeLeaves : m.bad \in {"wo_present", "wo_absent"}}
 Content1 == OO(<< <<"application/json", MtMin>> >>)
 Content2 == OO(<< <<"application/json", MtMin>>, <<"text/plain", MtMin>> >>)
+ParamContent == OO(<< <<"name", S("q")>>, <<"in", S("query")>>, <<"content", OO(<< <<"application/json", MtMin>> >>)>> >>)
+HeaderContent == OO(<< <<"content", OO(<< <<"application/json", MtMin>> >>)>> >>)
 ExOK == OO(<< <<"e", Min("example")>> >>)
 ExBad == OO(<< <<"e", OO(<< <<"value", N(1)>> >>)>> >>)
 
+(* schemas that refer back to themselves: only meaningful where the leaf is components.schemas.S itself.  Validate walks *)
+(* referenced schemas too and must come to an end on a cycle without losing what it finds on the way                    *)
+SelfRef == OO(<< <<"$ref", S(RefStr("schemas", Join(cNameS)))>> >>)
+OtherRef == OO(<< <<"$ref", S(RefStr("schemas", Join(cNameT)))>> >>)
+SelfRec == OO(<< <<"type", S("object")>>, <<"properties", OO(<< <<"p", SelfRef>> >>)>> >>)
+MutualRec == OO(<< <<"type", S("object")>>, <<"allOf", A(<<OtherRef>>)>> >>)
+BackComp == <<<<"schemas", Join(cNameT), OO(<< <<"type", S("object")>>, <<"properties", OO(<< <<"q", SelfRef>> >>)>> >>)>>>>
+SelfRefVars == {"self_recursive", "self_recursive_items", "mutual_recursive"}
 (* the variants that are only context-free directly under components.parameters *)
 PathOnlyVars == {"path_simple", "path_label", "path_matrix", "path_matrix_explode", "path_simple_explode", "path_not_required", "path_required_false", "path_form"}
 
@@ -122,7 +158,13 @@ Goods0(kind) ==
                             \* the URL may use a declared variable more than once
                             G("var_twice", OO(<< <<"url", S(Join(cUrlVar2))>>,
                                <<"variables", OO(<< <<"v", Min("serverVariable")>> >>)>> >>))}
-     [] kind = "components" -> {G("dotname", OO(<< <<"schemas", OO(<< <<Join(cNameDot), TString>> >>)>> >>))}
+     [] kind = "components" -> {G("dotname", OO(<< <<"schemas", OO(<< <<Join(cNameDot), TString>> >>)>> >>)),
+                                \* a header / parameter of the components is in no request body and in no response, whatever else the components hold
+                                G("header_example_after_response", OO(<< <<"responses", OO(<< <<Join(cNameR), RespD>> >>)>>,
+                                      <<"headers", OO(<< <<Join(cNameS), Drop(ParamWith(WoPresent), {"name", "in"})>> >>)>> >>)),
+                                G("header_example_after_request_body", OO(<< <<"requestBodies", OO(<< <<Join(cNameR), Min("requestBody")>> >>)>>,
+                                      <<"headers", OO(<< <<Join(cNameS), Drop(ParamWith(RoPresent), {"name", "in"})>> >>)>> >>)),
+                                G("header_example_alone", OO(<< <<"headers", OO(<< <<Join(cNameS), Drop(ParamWith(WoPresent), {"name", "in"})>> >>)>> >>))}
           \cup {G(SectionOf(k) \o "_" \o n.tag, OO(<< <<SectionOf(k), OO(<< <<Join(n.cs), Min(k)>> >>)>> >>))
                   : k \in RefKinds, n \in GoodNames}
      [] kind = "paths" ->
@@ -137,12 +179,20 @@ Goods0(kind) ==
                                 <<Join(cPathQ), OO(<< <<"get", OpId("c")>> >>)>> >>)),
            G("var_two_paths", OO(<< <<Join(cPathId), OO(<< <<"get", OpWith(<<PathParam("id")>>)>> >>)>>,
                                     <<Join(cPathQId), OO(<< <<"get", OpWith(<<PathParam("id")>>)>> >>)>> >>)),
-           G("ext_member", OO(<< <<sExt, N(1)>>, <<Join(cPathP), EmptyO>> >>))}
+           G("ext_member", OO(<< <<sExt, N(1)>>, <<Join(cPathP), EmptyO>> >>)),
+           \* a parameter is in no response, whatever was declared before it
+           G("param_example_in_second_path", OO(<< <<Join(cPathP), OO(<< <<"get", Op>> >>)>>,
+                                                   <<Join(cPathQ), OO(<< <<"get", OpWith(<<ParamWith(WoPresent)>>)>> >>)>> >>)),
+           G("param_example_in_first_path", OO(<< <<Join(cPathP), OO(<< <<"get", OpWith(<<ParamWith(WoPresent)>>)>> >>)>>,
+                                                  <<Join(cPathQ), OO(<< <<"get", Op>> >>)>> >>))}
      [] kind = "pathItem" -> {GC(x.var, OO(<< <<"parameters", A(x.ps)>> >>), x.comps) : x \in DistinctLists} \cup
-                             {G("texts", OO(<< <<"summary", S("s")>>, <<sDescr, S("d")>> >>)),
+                             {G("param_example_next_to_operation", OO(<< <<"get", Op>>, <<"parameters", A(<<ParamWith(WoPresent)>>)>> >>)),
+                              G("texts", OO(<< <<"summary", S("s")>>, <<sDescr, S("d")>> >>)),
                               G("same_name_other_in", OO(<< <<"parameters", A(<<Min("parameter"),
                                      OO(<< <<"name", S("q")>>, <<"in", S("header")>>, <<"schema", TString>> >>)>>)>> >>))}
      [] kind = "operation" -> {GC(x.var, OpWith(x.ps), x.comps) : x \in DistinctLists} \cup
+                              {G("param_example_before_request_body", With(OO(<< <<"parameters", A(<<ParamWith(RoPresent)>>)>>,
+                                     <<"requestBody", Min("requestBody")>> >>), << <<"responses", OO(<< <<"200", RespD>> >>)>> >>))} \cup
                               {G("response_codes", OO(<< <<"responses", OO(<< <<"2XX", RespD>>, <<"404", RespD>>, <<"default", RespD>> >>)>> >>))} \cup
                               {G("full", With(OO(<< <<"operationId", S("o")>>, <<"tags", A(<<S("g")>>)>>,
                                      <<"summary", S("s")>>, <<"deprecated", B(TRUE)>>, <<"security", A(<<EmptyO>>)>> >>),
@@ -164,16 +214,22 @@ Goods0(kind) ==
            G("content", OO(<< <<"name", S("q")>>, <<"in", S("query")>>, <<"content", Content1>> >>)),
            G("example", With(Min("parameter"), << <<"example", S("x")>> >>)),
            G("examples", With(Min("parameter"), << <<"examples", ExOK>> >>)),
+           G("content_example", With(ParamContent, << <<"example", S("x")>> >>)),
+           G("content_examples", With(ParamContent, << <<"examples", ExOK>> >>)),
            G("path_simple", PathParam("id")),
            G("path_label", With(PathParam("id"), << <<"style", S("label")>>, <<"explode", B(TRUE)>> >>)),
            G("path_matrix", With(PathParam("id"), << <<"style", S("matrix")>> >>)),
            G("path_matrix_explode", With(PathParam("id"), << <<"style", S("matrix")>>, <<"explode", B(TRUE)>> >>)),
            G("path_simple_explode", With(PathParam("id"), << <<"explode", B(TRUE)>> >>))}
+          \cup ModeGoods(WoLeaves, ParamWith)
      [] kind = "header" ->
           {G("explode", With(Min("header"), << <<"style", S("simple")>>, <<"explode", B(TRUE)>> >>)),
            G("content", OO(<< <<"content", Content1>> >>)),
            G("example", With(Min("header"), << <<"example", S("x")>> >>)),
-           G("examples", With(Min("header"), << <<"examples", ExOK>> >>))}
+           G("examples", With(Min("header"), << <<"examples", ExOK>> >>)),
+           G("content_example", With(HeaderContent, << <<"example", S("x")>> >>)),
+           G("content_examples", With(HeaderContent, << <<"examples", ExOK>> >>))}
+          \cup ModeGoods({m \in ModeLeaves : m.bad \in {"wo_present", "wo_absent"}}, LAMBDA m : Drop(ParamWith(m), {"name", "in"}))
      [] kind = "requestBody" -> {G("full", With(Min("requestBody"), << <<"required", B(TRUE)>>, <<sDescr, S("d")>> >>)),
                                  G("two_types", OO(<< <<"content", Content2>> >>)),
                                  G("media_ranges", OO(<< <<"content", OO(<< <<"*/*", MtMin>>, <<"application/*", MtMin>>,
@@ -181,18 +237,29 @@ Goods0(kind) ==
      [] kind = "response" -> {G("empty_description", OO(<< <<sDescr, S("")>> >>)),
                               G("full", With(RespD, << <<"headers", OO(<< <<"H", Min("header")>> >>)>>,
                                      <<"content", Content1>>, <<"links", OO(<< <<"L", Min("link")>> >>)>> >>))}
-     [] kind = "mediaType" -> {G("empty", EmptyO), G("example", With(MtMin, << <<"example", S("x")>> >>)),
+     [] kind = "mediaType" -> ModeGoods(ModeLeaves, MtWith) \cup MapModeGoods \cup
+                              {G("example_no_schema", OO(<< <<"example", N(1)>> >>)),
+                               G("examples_no_schema", OO(<< <<"examples", ExOK>> >>)),
+                               G("empty", EmptyO), G("example", With(MtMin, << <<"example", S("x")>> >>)),
                                G("examples", With(MtMin, << <<"examples", ExOK>> >>)),
                                G("object_example", OO(<< <<"schema", TObjectP>>,
                                      <<"example", OO(<< <<"p", N(1)>> >>)>> >>))}
      [] kind = "encoding" -> {G("style", OO(<< <<"style", S("pipeDelimited")>>, <<"explode", B(FALSE)>> >>)),
                               G("deep", OO(<< <<"style", S("deepObject")>>, <<"explode", B(TRUE)>> >>))}
      [] kind = "schema" ->
+          {G("self_recursive", SelfRec), G("self_recursive_items", OO(<< <<"type", S("array")>>, <<"items", SelfRef>> >>)),
+           GC("mutual_recursive", MutualRec, BackComp)} \cup
+          ModeGoods(PresentLeaves, SchWith) \cup
+          {G("format_" \o f, With(TString, << <<"format", S(f)>> >>)) : f \in KnownFormats("string") \ {"date"}} \cup
           {G("empty", EmptyO),
            G("array", OO(<< <<"type", S("array")>>, <<"items", TString>> >>)),
            G("object", With(TObjectP, << <<"required", A(<<S("p")>>)>>, <<"additionalProperties", B(FALSE)>> >>)),
            G("pattern", With(TString, << <<"pattern", S(Join(cPatOk))>> >>)),
            G("format_date", With(TString, << <<"format", S("date")>> >>)),
+           \* a format names a check only on strings, integers and numbers; a pattern only on strings
+           G("format_on_boolean", OO(<< <<"type", S("boolean")>>, <<"format", S("zz")>> >>)),
+           G("format_without_type", OO(<< <<"format", S("zz")>> >>)),
+           G("pattern_on_integer", With(TInteger, << <<"pattern", S(Join(cPatBad))>> >>)),
            G("format_int32", With(TInteger, << <<"format", S("int32")>> >>)),
            G("format_int64", With(TInteger, << <<"format", S("int64")>> >>)),
            G("format_double", OO(<< <<"type", S("number")>>, <<"format", S("double")>> >>)),
@@ -205,6 +272,7 @@ Goods0(kind) ==
            G("default_object", With(TObjectP, << <<"default", OO(<< <<"p", N(1)>> >>)>> >>)),
            G("example", With(TInteger, << <<"example", N(1)>> >>)),
            G("composed", OO(<< <<"allOf", A(<<TString>>)>>, <<"not", TInteger>> >>))}
+     [] kind = "externalDocs" -> {G("relative_url", OO(<< <<"url", S("docs/x")>> >>))}
      [] kind = "example" -> {G("external", OO(<< <<"externalValue", UrlPlain>> >>)),
                              G("texts", With(Min("example"), << <<"summary", S("s")>>, <<sDescr, S("d")>> >>))}
      [] kind = "link" -> {G("ref", OO(<< <<"operationRef", S("#/paths/~1p/get")>> >>))}
@@ -234,7 +302,9 @@ Bads0(kind) ==
                           Bd("title_missing", "empty", Set(Min("info"), "title", S(""))),
                           Bd("version_missing", "absent", Drop(Min("info"), {"version"}))}
      [] kind = "license" -> {Bd("name_missing", "absent", OO(<< <<"url", UrlPlain>> >>))}
-     [] kind = "externalDocs" -> {Bd("url_missing", "absent", OO(<< <<sDescr, S("d")>> >>))}
+     [] kind = "externalDocs" -> {Bd("url_missing", "absent", OO(<< <<sDescr, S("d")>> >>)),
+                                  Bd("url_missing", "empty", OO(<< <<"url", S("")>> >>)),
+                                  Bd("url_malformed", "no_scheme", OO(<< <<"url", UrlBad>> >>))}
      [] kind = "server" ->
           {Bd("url_missing", "absent", OO(<< <<sDescr, S("d")>> >>)),
            Bd("url_missing", "empty", OO(<< <<"url", S("")>> >>)),
@@ -307,8 +377,10 @@ Bads0(kind) ==
            Bd("example_and_examples", "both", With(Min("parameter"), << <<"example", S("x")>>, <<"examples", ExOK>> >>)),
            Bd("example_mismatch", "number", With(Min("parameter"), << <<"example", N(1)>> >>)),
            Bd("examples_mismatch", "number", With(Min("parameter"), << <<"examples", ExBad>> >>)),
+           Bd("example_and_examples", "both_with_content", With(ParamContent, << <<"example", S("x")>>, <<"examples", ExOK>> >>)),
            Bd("path_not_required", "path_not_required", Drop(PathParam("id"), {"required"})),
            Bd("path_not_required", "path_required_false", Set(PathParam("id"), "required", B(FALSE)))}
+          \cup ModeBads(WoLeaves, ParamWith)
      [] kind = "header" ->
           {Bd("header_has_name", "name", With(Min("header"), << <<"name", S("n")>> >>)),
            Bd("header_has_in", "in", With(Min("header"), << <<"in", S("header")>> >>)),
@@ -318,18 +390,29 @@ Bads0(kind) ==
            Bd("content_multi", "two", OO(<< <<"content", Content2>> >>)),
            Bd("example_and_examples", "both", With(Min("header"), << <<"example", S("x")>>, <<"examples", ExOK>> >>)),
            Bd("example_mismatch", "number", With(Min("header"), << <<"example", N(1)>> >>)),
-           Bd("examples_mismatch", "number", With(Min("header"), << <<"examples", ExBad>> >>))}
+           Bd("examples_mismatch", "number", With(Min("header"), << <<"examples", ExBad>> >>)),
+           Bd("example_and_examples", "both_with_content", With(HeaderContent, << <<"example", S("x")>>, <<"examples", ExOK>> >>))}
+          \cup ModeBads({m \in ModeLeaves : m.bad \in {"wo_present", "wo_absent"}}, LAMBDA m : Drop(ParamWith(m), {"name", "in"}))
      [] kind = "requestBody" -> {Bd("content_missing", "absent", OO(<< <<sDescr, S("d")>> >>))}
      [] kind = "response" -> {Bd("description_missing", "absent", OO(<< <<"content", Content1>> >>))}
      [] kind = "mediaType" ->
-          {Bd("example_and_examples", "both", With(MtMin, << <<"example", S("x")>>, <<"examples", ExOK>> >>)),
+          ModeBads(ModeLeaves, MtWith) \cup MapModeBads \cup
+          {Bd("example_and_examples", "both_no_schema", OO(<< <<"example", S("x")>>, <<"examples", ExOK>> >>)),
+           Bd("example_and_examples", "both", With(MtMin, << <<"example", S("x")>>, <<"examples", ExOK>> >>)),
            Bd("example_mismatch", "number", With(MtMin, << <<"example", N(1)>> >>)),
            Bd("example_mismatch", "property", OO(<< <<"schema", TObjectP>>, <<"example", OO(<< <<"p", S("x")>> >>)>> >>)),
            Bd("examples_mismatch", "number", With(MtMin, << <<"examples", ExBad>> >>))}
      [] kind = "encoding" -> {Bd("bad_style", "simple", OO(<< <<"style", S("simple")>> >>)),
                               Bd("bad_style", "deep_noexplode", OO(<< <<"style", S("deepObject")>>, <<"explode", B(FALSE)>> >>))}
      [] kind = "schema" ->
-          {Bd("readonly_and_writeonly", "both", With(TString, << <<"readOnly", B(TRUE)>>, <<"writeOnly", B(TRUE)>> >>)),
+          {Bd("default_mismatch", "self_recursive", With(SelfRec, << <<"default", N(1)>> >>)),
+           Bd("readonly_and_writeonly", "self_recursive_items", OO(<< <<"type", S("array")>>, <<"items", SelfRef>>, <<"readOnly", B(TRUE)>>, <<"writeOnly", B(TRUE)>> >>)),
+           BdC("example_mismatch", "mutual_recursive", With(MutualRec, << <<"example", N(1)>> >>), BackComp)} \cup
+          ModeBads(PresentLeaves, SchWith) \cup
+          {Bd("unknown_format", "int32_on_number", OO(<< <<"type", S("number")>>, <<"format", S("int32")>> >>)),
+           Bd("unknown_format", "float_on_integer", With(TInteger, << <<"format", S("float")>> >>)),
+           Bd("unknown_format", "int64_on_string", With(TString, << <<"format", S("int64")>> >>)),
+           Bd("readonly_and_writeonly", "both", With(TString, << <<"readOnly", B(TRUE)>>, <<"writeOnly", B(TRUE)>> >>)),
            Bd("unknown_type", "case", OO(<< <<"type", S("String")>> >>)),
            Bd("unknown_type", "strin", OO(<< <<"type", S("strin")>> >>)),
            Bd("array_without_items", "array", OO(<< <<"type", S("array")>> >>)),
@@ -369,15 +452,21 @@ Bads0(kind) ==
            Bd("ss_flows_forbidden", "http", With(Min("securityScheme"), << <<"flows", Min("oauthFlows")>> >>)),
            Bd("ss_oidc_url", "absent", OO(<< <<"type", S("openIdConnect")>> >>))}
      [] kind = "flowImplicit" ->
-          {Bd("flow_authurl_missing", "absent", Drop(Min(kind), {"authorizationUrl"})),
+          {Bd("url_malformed", "authorization", Set(Min(kind), "authorizationUrl", UrlBad)),
+           Bd("url_malformed", "refresh", With(Min(kind), << <<"refreshUrl", UrlBad>> >>)),
+           Bd("flow_authurl_missing", "absent", Drop(Min(kind), {"authorizationUrl"})),
            Bd("flow_tokenurl_forbidden", "present", With(Min(kind), << <<"tokenUrl", UrlPlain>> >>)),
            Bd("flow_scopes_missing", "absent", Drop(Min(kind), {"scopes"}))}
      [] kind \in {"flowPassword", "flowClient"} ->
-          {Bd("flow_tokenurl_missing", "absent", Drop(Min(kind), {"tokenUrl"})),
+          {Bd("url_malformed", "token", Set(Min(kind), "tokenUrl", UrlBad)),
+           Bd("url_malformed", "refresh", With(Min(kind), << <<"refreshUrl", UrlBad>> >>)),
+           Bd("flow_tokenurl_missing", "absent", Drop(Min(kind), {"tokenUrl"})),
            Bd("flow_authurl_forbidden", "present", With(Min(kind), << <<"authorizationUrl", UrlPlain>> >>)),
            Bd("flow_scopes_missing", "absent", Drop(Min(kind), {"scopes"}))}
      [] kind = "flowCode" ->
-          {Bd("flow_authurl_missing", "absent", Drop(Min(kind), {"authorizationUrl"})),
+          {Bd("url_malformed", "authorization", Set(Min(kind), "authorizationUrl", UrlBad)),
+           Bd("url_malformed", "token", Set(Min(kind), "tokenUrl", UrlBad)),
+           Bd("flow_authurl_missing", "absent", Drop(Min(kind), {"authorizationUrl"})),
            Bd("flow_tokenurl_missing", "absent", Drop(Min(kind), {"tokenUrl"})),
            Bd("flow_scopes_missing", "absent", Drop(Min(kind), {"scopes"}))}
      [] OTHER -> {}
@@ -402,6 +491,7 @@ MapKeys(kind, f) ==
 EmbedBase(kind, f) ==
    CASE kind \in {"parameter", "header"} /\ f = "content" -> Drop(Min(kind), {"schema"})
      [] kind = "server" /\ f = "variables" -> OO(<< <<"url", S(Join(cUrlVar))>> >>)
+     [] kind = "pathItem" /\ f = "parameters" -> OO(<< <<"get", Min("operation")>> >>)     \* parameters common to an operation
      [] kind = "schema" /\ f = "items" -> OO(<< <<"type", S("array")>> >>)
      [] kind = "schema" /\ f \in {"properties", "additionalProperties", "discriminator", "xml"} -> OO(<< <<"type", S("object")>> >>)
      [] kind = "schema" /\ f \in {"allOf", "oneOf", "anyOf", "not"} -> EmptyO
@@ -421,9 +511,11 @@ Step(from, e, pos) ==
               [] e.mode = "arr" -> ToString(Ord(pos) - 1)
               [] OTHER -> MapKeys(from, e.f)[Ord(pos)]]
 
+(* pos 3 also: the examples map of a media type that has no schema, and of a parameter / header described by content *)
+BareBase(from, f) == IF from \in {"parameter", "header"} THEN Set(Drop(Min(from), {"schema"}), "content", Content1) ELSE EmptyO
 Embed(stp, child) ==
    LET st   == [stp EXCEPT !.pos = Ord(@)]
-       base == IF stp.pos = 3 THEN EmptyO ELSE EmbedBase(st.from, st.f)
+       base == IF stp.pos = 3 THEN BareBase(st.from, st.f) ELSE EmbedBase(st.from, st.f)
        sib  == Sibling(st.kind)
        keys == MapKeys(st.from, st.f) IN
    CASE st.mode = "one" -> Set(base, st.f, child)
@@ -433,6 +525,7 @@ Embed(stp, child) ==
      [] st.mode = "self" -> IF st.pos = 1 THEN Set(base, keys[1], child)
                             ELSE Set(Set(base, keys[1], sib), keys[2], child)
 
+ViaOfPath(path) == [i \in DOMAIN path |-> <<path[i].from, path[i].f>>]
 StepPtr(st) == CASE st.mode = "one" -> <<st.f>> [] st.mode = "self" -> <<st.key>> [] OTHER -> <<st.f, st.key>>
 RECURSIVE PtrOf(_)
 PtrOf(path) == IF path = <<>> THEN <<>> ELSE StepPtr(Head(path)) \o PtrOf(Tail(path))
@@ -452,17 +545,20 @@ RefLeafObj(kind, rule) ==
      [] rule = "ref_ext_sibling" -> O(<<r, P(sExt, N(1))>>)
      [] OTHER -> O(<<r>>)
 
+NullLeaf == [rule |-> "null_member", var |-> "null"]
 LeafChoices(path) ==
    LET kind == KindAt(path) IN
    {[rule |-> x.rule, var |-> x.var] : x \in LeafTab[kind]}
+   \cup (IF path # <<>> /\ path[Len(path)].mode \in {"arr", "map"} /\ kind \in NullRefused THEN {NullLeaf} ELSE {})
    \cup (IF path # <<>> /\ path[Len(path)].ref THEN {[rule |-> r, var |-> "ref"] : r \in RefRules} ELSE {})
 
 LeafObj(kind, leaf) ==
-   IF leaf.rule \in RefRules THEN RefLeafObj(kind, leaf.rule)
+   IF leaf = NullLeaf THEN Z
+   ELSE IF leaf.rule \in RefRules THEN RefLeafObj(kind, leaf.rule)
    ELSE (CHOOSE x \in LeafTab[kind] : x.rule = leaf.rule /\ x.var = leaf.var).obj
 
 LeafComps(kind, leaf) ==
-   IF leaf.rule \in RefRules THEN <<>>
+   IF leaf.rule \in RefRules \/ leaf = NullLeaf THEN <<>>
    ELSE (CHOOSE x \in LeafTab[kind] : x.rule = leaf.rule /\ x.var = leaf.var).comps
 RECURSIVE AddComps(_, _)
 AddComps(d, comps) ==
